@@ -516,6 +516,24 @@ func (e *seqEnv) invariant(t *rapid.T) {
 	}
 	if len(l) > 0 {
 		e.counts["offer.nonempty"]++
+		senders := map[common.Address]bool{}
+		for _, tx := range l {
+			sender, _ := types.Sender(tx)
+			senders[sender] = true
+			if validation.CeremonialTxs[tx.Type] {
+				e.counts["offer.with_priority_tx"]++
+				if tx.AccountNonce > effNonce(s, sender)+1 {
+					e.counts["offer.priority_tx_behind_others"]++
+				}
+				break
+			}
+		}
+		if len(senders) > 1 {
+			e.counts["offer.several_senders"]++
+		}
+		if len(l) < len(content) {
+			e.counts["offer.leaves_some_out"]++
+		}
 	}
 	// clause: an admitted transaction stays retrievable until included or made invalid
 	byAddr := map[common.Address][]*types.Transaction{}
